@@ -441,6 +441,26 @@ fn inline(rng: &mut Rng, n: usize, sink: &mut Sink, niche: bool) {
             }
         }
     }
+    // integers whose text has 15, 16 and 17 characters, through every 64-bit route; exact capacities
+    for (k, ty) in ["u64", "i64", "usize", "isize", "nz_u64", "nz_i64", "u128", "i128"].iter().enumerate() {
+        sink.line("reset");
+        sink.line(&format!("int 0 {ty} {}", 10u64.pow(14) + k as u64));
+        sink.line(&format!("int 1 {ty} {}", 10u64.pow(15) + 7 * k as u64));
+        sink.line(&format!("int 2 {ty} {}", 10u64.pow(16) - 1));
+        sink.line(&format!("int 3 {ty} {}", 10u64.pow(16) + k as u64));
+        if ty.starts_with('i') || ty.starts_with("nz_i") {
+            sink.line(&format!("int 4 {ty} -{}", 10u64.pow(14) + 3));
+            sink.line(&format!("int 5 {ty} -{}", 10u64.pow(15) + 3));
+        }
+    }
+    for n in 0..=18usize {
+        sink.line("reset");
+        sink.line(&format!("with_capacity 0 {n}"));
+        sink.line(&format!("try_with_capacity 1 {n}"));
+        let its = if n == 0 { "-".to_string() } else { vec![h("a"); n].join(",") };
+        sink.line(&format!("collect_chars 2 exact {its}"));
+        sink.line(&format!("collect_chars 3 {n} -"));
+    }
     // chars, bools, with_capacity <= 16, static <= 16
     for c in ["a", "é", "€", "𝄞"] {
         sink.line("reset");
